@@ -1078,7 +1078,10 @@ def judge_merge(case, f, ctx, answers):
     got = None
     if r["rc"] == 0:
         produced = ctx["produced"] if ctx["outp"] else r["out"]
-        as_json = bool(lib.get("is_json"))
+        # "in the requested format": an explicit --document-format decides, whatever the output file is called
+        # (the library's own answer is only consulted for `auto` / no option)
+        as_json = (True if case.get("docformat") == "json" else False if case.get("docformat") == "yaml"
+                   else bool(lib.get("is_json")))
         try:
             got = parse_merge_output(produced or "", as_json)
         except Exception:  # noqa
